@@ -1,4 +1,29 @@
-// engine K harnesses for module hook 'proof_generation' (included under cfg(kani) by /repo)
+// engine K — protocol/ipa_prf/validation_protocol/proof_generation.rs (property C03: recursion depth suffices)
+use super::*;
+use crate::protocol::context::dzkp_validator::{MIN_PROOF_RECURSION, TARGET_PROOF_SIZE};
+
+/// With the code's own recursion factors and depth constants (non-test TARGET_PROOF_SIZE):
+///   L * (S-1) * S^(d-2) >= 4 * TARGET_PROOF_SIZE   (documented hard limit: the largest batch fits)
+/// the bound used by ProofBatch::generate's own assert is the same expression, MIN_PROOF_RECURSION >= 2,
+/// proof lengths are 2*factor - 1, and the flat proof array holds one first proof + (d-1) compressed proofs.
+#[kani::proof]
+fn c03_recursion_constants() {
+    kani::cover!(true);
+    const L: usize = FirstProofGenerator::RECURSION_FACTOR;
+    const S: usize = CompressedProofGenerator::RECURSION_FACTOR;
+    const D: usize = MAX_PROOF_RECURSION;
+    assert!(L == FRF);
+    assert!(MIN_PROOF_RECURSION >= 2 && D >= MIN_PROOF_RECURSION);
+    let max_uv = (S - 1).checked_mul(S.pow((D - 2) as u32));
+    assert!(max_uv.is_some());
+    let cap = max_uv.and_then(|m| m.checked_mul(L));
+    assert!(cap.is_some());
+    assert!(cap.unwrap_or(0) >= 4 * TARGET_PROOF_SIZE);
+    assert!(FirstProofGenerator::PROOF_LENGTH == 2 * L - 1);
+    assert!(CompressedProofGenerator::PROOF_LENGTH == 2 * S - 1);
+    assert!(FirstProofGenerator::LAGRANGE_LENGTH == L - 1 && CompressedProofGenerator::LAGRANGE_LENGTH == S - 1);
+    assert!(ARRAY_LEN == FirstProofGenerator::PROOF_LENGTH + (D - 1) * CompressedProofGenerator::PROOF_LENGTH);
+}
 
 #[cfg(test)]
 include!(concat!(env!("IPA_VERIF_DIR"), "/.build/playback/proof_generation.rs"));
